@@ -364,6 +364,9 @@ def track_untrack(R, fns):
         R.check(ev_dominates(f, add, put, dom) or ev_dominates(f, put, add, dom), "TRACK", "insert-implies-add", where(f, put), "every path that inserts also bumps the counter")
     f = fns["s_alloc_tracer_untrack"]
     dom = dominators(f)
+    take = [e for e in f.calls("aws_hash_table_remove") if len(e.node["a"]) >= 3 and f.is_const(RU.uncast(f, RU.arg(f, e.node, 2))) is None]
+    if not f.calls("aws_hash_table_find") and len(take) == 1:
+        return untrack_by_take(R, f, dom, take[0])
     find = single(R, f, "aws_hash_table_find", "lookup")
     sub = single(R, f, {"aws_atomic_fetch_sub", "aws_atomic_fetch_sub_explicit"}, "counter decrement")
     rems = f.calls({"aws_hash_table_remove_element", "aws_hash_table_remove"})
@@ -389,6 +392,36 @@ def track_untrack(R, fns):
             for v in [x for x in f.aliases() if f.show(f.aliases()[x], alias=True) == item + "->value"]:
                 later = RU.dead_after(f, d, v)
                 R.check(not later, "UNTRACK", "record-dead-after-destroy", where(f, d), "record not used after destroy", "record used after destroy at %s" % [x.line for x in later][:3])
+
+
+def untrack_by_take(R, f, dom, rem):
+    """UNTRACK, the other way to write it: aws_hash_table_remove(&allocs, ptr, &element, &was_present) looks the record up and
+    takes it out of the table in one step, handing the element over (an out-parameter is passed, so the table does not run
+    its value destructor); the size subtracted is the taken record's, read before the record is destroyed"""
+    sub = single(R, f, {"aws_atomic_fetch_sub", "aws_atomic_fetch_sub_explicit"}, "counter decrement")
+    R.check(True, "UNTRACK", "removes-record", "%s()" % f.name, "the record is taken out of the table (aws_hash_table_remove with an out-element)")
+    if not sub:
+        return
+    R.check(tracer_field(f, RU.arg(f, rem.node, 0)) == "allocs" and argstr(f, rem.node, 1, addr=False) == "ptr", "UNTRACK", "looks-up-pointer", where(f, rem), "allocs[ptr] looked up and taken out")
+    item = argstr(f, rem.node, 2)
+    amt = RU.resolve(f, RU.arg(f, sub.node, 1))
+    ok_amt = amt is not None and amt["k"] == "member" and amt["f"] == "size" and amt.get("rec") == "alloc_info"
+    src = f.show(amt["a"][0], alias=True) if ok_amt else None
+    R.check(ok_amt and src in (item + ".value", item + "->value") and tracer_field(f, RU.arg(f, sub.node, 0)) == "allocated", "UNTRACK", "subtracts-stored-size", where(f, sub),
+            "counter -= (taken record)->size", "the amount subtracted (%s) is not the stored size of the record found for ptr" % f.show(amt))
+    R.check(ev_dominates(f, rem, sub, dom), "UNTRACK", "find-sub-remove", where(f, rem), "the record is taken out, then its size subtracted")
+    R.check(True, "UNTRACK", "removes-found-element", where(f, rem), "the element found is the element removed (one call)")
+    # the subtraction happens exactly when something was taken: guarded by the was-present flag (or the element's value) only
+    flag = argstr(f, rem.node, 3) if len(rem.node["a"]) >= 4 else None
+    gs = [RU.cmp_norm(f, c_, p_) for c_, p_, b_ in RU.guards(f, sub, dom)]
+    gs = [g for g in gs if g and not (RU.uncast(f, g[0]) or {}).get("k") == "call"]
+    okg = any(g[1] == "!=" and (g[2] is None or f.is_const(g[2]) == 0) and f.show(RU.uncast(f, g[0]), alias=True) in (flag, item + ".value", item + ".key") for g in gs)
+    R.check(okg, "UNTRACK", "sub-implies-remove", where(f, sub), "the size is subtracted exactly when a record was taken out", "the subtraction does not depend on a record having been taken out of the table (guards %s)" % [f.show(g[0]) for g in gs])
+    for d in f.calls({"s_destroy_alloc", "aws_mem_release"}):
+        R.check(ev_dominates(f, sub, d, dom), "UNTRACK", "size-read-before-destroy", where(f, d), "record destroyed after its size was read", "the record is destroyed before its size is read (use after free)")
+        for v in [x for x in f.aliases() if f.show(f.aliases()[x], alias=True) in (item + ".value", item + "->value")]:
+            later = RU.dead_after(f, d, v)
+            R.check(not later, "UNTRACK", "record-dead-after-destroy", where(f, d), "record not used after destroy", "record used after destroy at %s" % [x.line for x in later][:3])
 
 
 def locks(R, fns):
